@@ -12,6 +12,15 @@ theorem pres_putOpen {s s' : St} {a : Act} (hI : Inv s) (h : step .repaired s a 
   | fire t0 =>
     simp only [step] at h
     (repeat' (split at h)) <;> (try cases h) <;> (simp only [St.setPc, St.setObj]; first | (have i_putOpen := hI.putOpen; have i_refs := hI.refs; have i_wrA := hI.wrA; grind [preSpawn, cleanerOf, wslot, dlObj, holdsStore, PC.ref, Obj.fresh]) | (have i_putOpen := hI.putOpen; have i_noCl := hI.noCl; have i_clA := hI.clA; have i_wrA := hI.wrA; have i_dlSt := hI.dlSt; have i_putNotSt := hI.putNotSt; have i_refs := hI.refs; have i_lockA := hI.lockA; grind (instances := 4000) [preSpawn, cleanerOf, wslot, dlObj, holdsStore, PC.ref, Obj.fresh]))
+  | corrupt d =>
+    simp only [step] at h
+    (repeat' (split at h)) <;> (try cases h) <;> (simp only []; first | (have i_putOpen := hI.putOpen; have i_refs := hI.refs; have i_wrA := hI.wrA; grind [preSpawn, cleanerOf, wslot, dlObj, holdsStore, PC.ref, Obj.fresh]) | (have i_putOpen := hI.putOpen; have i_noCl := hI.noCl; have i_clA := hI.clA; have i_wrA := hI.wrA; have i_dlSt := hI.dlSt; have i_putNotSt := hI.putNotSt; have i_refs := hI.refs; have i_lockA := hI.lockA; grind (instances := 4000) [preSpawn, cleanerOf, wslot, dlObj, holdsStore, PC.ref, Obj.fresh]))
+  | block d =>
+    simp only [step] at h
+    (repeat' (split at h)) <;> (try cases h) <;> (simp only []; first | (have i_putOpen := hI.putOpen; have i_refs := hI.refs; have i_wrA := hI.wrA; grind [preSpawn, cleanerOf, wslot, dlObj, holdsStore, PC.ref, Obj.fresh]) | (have i_putOpen := hI.putOpen; have i_noCl := hI.noCl; have i_clA := hI.clA; have i_wrA := hI.wrA; have i_dlSt := hI.dlSt; have i_putNotSt := hI.putNotSt; have i_refs := hI.refs; have i_lockA := hI.lockA; grind (instances := 4000) [preSpawn, cleanerOf, wslot, dlObj, holdsStore, PC.ref, Obj.fresh]))
+  | repair d =>
+    simp only [step] at h
+    (repeat' (split at h)) <;> (try cases h) <;> (simp only []; first | (have i_putOpen := hI.putOpen; have i_refs := hI.refs; have i_wrA := hI.wrA; grind [preSpawn, cleanerOf, wslot, dlObj, holdsStore, PC.ref, Obj.fresh]) | (have i_putOpen := hI.putOpen; have i_noCl := hI.noCl; have i_clA := hI.clA; have i_wrA := hI.wrA; have i_dlSt := hI.dlSt; have i_putNotSt := hI.putNotSt; have i_refs := hI.refs; have i_lockA := hI.lockA; grind (instances := 4000) [preSpawn, cleanerOf, wslot, dlObj, holdsStore, PC.ref, Obj.fresh]))
   | run t0 =>
     simp only [step] at h
     split at h
